@@ -411,8 +411,14 @@ def lf_exhaustive_block(tier):
         dict(op="calc", steps=[["one", 1, 0.1], ["bound", 2, "lo"], ["bound", 0, "hi"]]),   # session ends on two bounds
     ]
     depth = 2 if tier == "quick" else 3
+    # a 7-operation sub-alphabet (free / constant, set -> set, batched block, free length exactly 0, a value beyond
+    # a bound, optimiser session ending on bounds) at full depth; thorough adds all pairs over the 11 operations
+    sub = [alphabet[i] for i in (0, 1, 2, 4, 7, 9, 10)]
+    hists = list(itertools.product(sub, repeat=depth))
+    if tier != "quick":
+        hists += [h for h in itertools.product(alphabet, repeat=2) if not all(o in sub for o in h)]
     cases = [dict(kind="lf", block="exhaustive", spec=spec, edges=edges, ops=[dict(o) for o in hist] + [dict(op="roundtrip")])
-             for hist in itertools.product(alphabet, repeat=depth)]
+             for hist in hists]
     # scopes over two dimensions (edge x bin): every sequence of rules tying / splitting / fixing sub-scopes
     spec2 = dict(tree=tree, model="HKY85", length=60, aln_seed=1, bins=2)
     alpha2 = [
@@ -896,7 +902,7 @@ def run(tier: str, seed: int) -> int:
         exhaustive=False,
         exhaustive_block=f"synthetic Calculator: all histories of length {3 if quick else 4} over a 7-operation alphabet on "
                          f"{len(EX_GRAPHS)} fixed graphs; likelihood function: all sequences of {2 if quick else 3} operations over a "
-                         "11-operation alphabet (HKY85, 3 taxa; incl. free length exactly 0.0, constant 0, a value beyond a bound, optimiser session ending on bounds), "
+                         "7-operation alphabet (thorough: plus all pairs over 11 operations) (HKY85, 3 taxa; incl. free length exactly 0.0, constant 0, a value beyond a bound, optimiser session ending on bounds), "
                          "rule export/import round trip after every step",
     )
     core.conclude(rep, pr, f"{len(cases)} histories against evaluation from scratch", disagreements[:5],
